@@ -181,7 +181,7 @@ EXTRA = {
     'C09': ' Rounds 3-4: fold law read off merge() (C09.R4f), replace takes base-class overrides as given (C09.R2b), star-name column.',
     'C10': ' Rounds 3-4: conversion order for _Merger (C10.R4), rows of the partial table (C10.R5), upgraded-annotation test set aside. Round 5: star parameters standing for both inputs are conciled (C10.R1s). Round 7: a disagreement between annotations is remembered (C10.R6, known D57).',
     'C11': ' Rounds 3-4: pairing of annotation and upgraded annotation at every construction site (C11.R2c). Round 7: annotate survives discovery (C11.R5, known D54), agreement decided on denotations (C11.R6, known D55), annotations paired with the owner through __wrapped__ (C11.R7, D56); non-text annotations stay pre-evaluated. Round 8 / sweep 5: a slot is overridden by its own argument only (C11.R1), owner accepted by capability (C11.R8), slot polarity (C11.R1d).',
-    'C12': ' Rounds 3-4: targets of functools.partial do not edit bound arguments in place (C12.R3p). Round 5: position records count in the whole parameter list (C12.R1k), empty selections do not reach the pass-through __new__ (C12.R5). Later: definite assignment (C12.R6). Round 6: stacked selections (C12.R7). Round 7: identity comparison of the empty marker (C12.R8), bound copy built from an adjusted selection (C12.R9, known D52), receiver name of the pass-through __call__ (C12.R10, known D53).',
+    'C12': ' Rounds 3-4: targets of functools.partial do not edit bound arguments in place (C12.R3p). Round 5: position records count in the whole parameter list (C12.R1k), empty selections do not reach the pass-through __new__ (C12.R5). Later: definite assignment (C12.R6). Round 6: stacked selections (C12.R7). Round 7: identity comparison of the empty marker (C12.R8), bound copy built from an adjusted selection (C12.R9, known D52), receiver name of the pass-through __call__ (C12.R10, known D53). Sweep 5: admissibility of the selection in _prepare (C12.R1a: the after-a-regular-parameter flag is set, a selected non-regular parameter raises).',
     'C13': ' Rounds 3-4: thread-local attributes read tolerantly (C13.R6c), wrappers() lists every layer (universal C13.R5), universal safe_get table. Round 6: operands of specifiers.forwards (C13.R4). Round 7: forged signature visible to inspect (C13.R7, known D46), receiver names of the pass-through __call__ methods (C13.R8, known D53 x3).',
     'C14': ' Rounds 3-4: base-class overrides decided neither by truthiness nor by is-None (also at value level), _upgrade idempotent (C14.R3b), sibling agreement on __eq__ (C14.R1s). Round 5: parameter iterables materialised before being traversed twice (C14.R5, D30), __eq__ must not evaluate source text outside a handler (C14.R1e, known finding D31), receiver slots kept as they are. Round 6: upgrade on every way out of forged_signature (C14.R6). Round 7: eval() only sees text (C14.R7, D35), __eq__ reflexive by shape (C14.R8, D36). Round 8 / sweep 5: replace never returns its receiver (C14.R3c), slot polarity (C14.R3d), what __eq__ answers (C14.R9).',
     'C15': ' Rounds 3-4: helper contracts give every provenance map its own +depths (C15.R9), _upgrade idempotent (C15.R4c). Round 5: accumulator read by position (C15.R10). Later: definite assignment over the algebra closure (C15.R11). Round 6: index guards over the algebra closure (C15.R12). Round 7: every ValueError-raising call of merge/embed, the validating construction included, lies in the converting try (C15.R13, D43). Round 8: names-versus-parameters contract of _remove_from_src at every call site (C15.R14).',
